@@ -1,11 +1,10 @@
 import logging
-import re
 from typing import Any
 
 from pyopenapi_gen import IROperation
 
 from ....context.render_context import RenderContext
-from ....core.utils import Formatter, NameSanitizer
+from ....core.utils import Formatter
 from ....core.writers.code_writer import CodeWriter
 from ....types.strategies import ResponseStrategyResolver
 from ..processors.import_analyzer import EndpointImportAnalyzer
@@ -149,12 +148,15 @@ class EndpointMethodGenerator:
             writer.write_line(f"- {content_type}")
         writer.write_line('"""')
 
-        # Generate URL construction with sanitized path variables
-        formatted_path = re.sub(
-            r"{([^}]+)}", lambda m: f"{{{NameSanitizer.sanitize_method_name(str(m.group(1)))}}}", op.path
-        )
-        writer.write_line(f'url = f"{{self.base_url}}{formatted_path}"')
-        writer.write_line("")
+        # URL, query, header and cookie arguments are built exactly as for single-content operations
+        # (path variables serialised; `params`, `headers`, `cookies` dicts from the declared parameters)
+        has_header_params = self.url_args_generator.generate_url_and_args(writer, op, context, ordered_params, None, None)
+        has_query_params = any(p.get("param_in") == "query" for p in ordered_params)
+        has_cookie_params = any(p.get("param_in") == "cookie" for p in ordered_params)
+        params_arg = "params=params," if has_query_params else "params=None,"
+        headers_arg = "headers=headers" if has_header_params else "headers=None"
+        if has_cookie_params:
+            headers_arg += ", cookies=cookies"
 
         # Generate runtime dispatch logic
         writer.write_line("# Runtime dispatch based on content type")
@@ -179,9 +181,9 @@ class EndpointMethodGenerator:
                 writer.write_line("response = await self._transport.request(")
                 writer.indent()
                 writer.write_line(f'"{op.method.value.upper()}", url,')
-                writer.write_line("params=None,")
+                writer.write_line(params_arg)
                 writer.write_line("json=json_body,")
-                writer.write_line("headers=None")
+                writer.write_line(headers_arg)
                 writer.dedent()
                 writer.write_line(")")
             elif content_type == "multipart/form-data":
@@ -189,9 +191,9 @@ class EndpointMethodGenerator:
                 writer.write_line("response = await self._transport.request(")
                 writer.indent()
                 writer.write_line(f'"{op.method.value.upper()}", url,')
-                writer.write_line("params=None,")
+                writer.write_line(params_arg)
                 writer.write_line(f"files={param_info['name']},")
-                writer.write_line("headers=None")
+                writer.write_line(headers_arg)
                 writer.dedent()
                 writer.write_line(")")
             else:
@@ -199,9 +201,9 @@ class EndpointMethodGenerator:
                 writer.write_line("response = await self._transport.request(")
                 writer.indent()
                 writer.write_line(f'"{op.method.value.upper()}", url,')
-                writer.write_line("params=None,")
+                writer.write_line(params_arg)
                 writer.write_line("data=data,")
-                writer.write_line("headers=None")
+                writer.write_line(headers_arg)
                 writer.dedent()
                 writer.write_line(")")
 
